@@ -14,6 +14,7 @@ Option 0 is always the conforming / prompt / fault-free answer.
 The board also keeps the attribution ledger: every reply line remembers the request that
 produced it, every delivery remembers the request that was current when it was read.
 """
+import errno
 import types
 
 import serial  # pyserial, the library's own dependency
@@ -26,6 +27,11 @@ EXC = {
     "OSError": lambda: OSError(5, "injected I/O error"),
     "IOError": lambda: IOError("injected I/O error"),
     "RuntimeError": lambda: RuntimeError("injected runtime error"),
+    # what the operating system says when a read "would block" or was interrupted: OSError
+    # instances told apart by the number they carry, not by their class
+    "OSError_EAGAIN": lambda: OSError(errno.EAGAIN, "Resource temporarily unavailable"),
+    "InterruptedError": lambda: InterruptedError(errno.EINTR, "Interrupted system call"),
+    "BrokenPipeError": lambda: BrokenPipeError(errno.EPIPE, "Broken pipe"),
 }
 
 
